@@ -78,18 +78,28 @@ example : ∃ c ∈ Gen.IpcHeaders.ctors, ∃ h ∈ Gen.IpcHeaders.headerSites, 
 /-! ### (b) event stream -/
 
 /-- **Event stream.**  For every filter list, capacity and schedule of events dispatched to the
-stream, iterations of the stream goroutine and `Stop()` calls: the wanted events (those some
-filter accepts) dispatched while the stream is open are exactly the logged ones, in arrival order;
-what was sent followed by what is still buffered is exactly those of them that found room, in
-order; the buffer never exceeds its capacity. -/
+stream, iterations of the stream goroutine (with succeeding or failing client sends) and `Stop()`
+calls: the wanted events (those some filter accepts) dispatched while the stream is open are exactly
+the logged ones, in arrival order; what was sent, then the one event lost to a failed send (if any),
+then what is still buffered, is exactly those of them that found room, in order; nothing is lost
+while the goroutine lives; the buffer never exceeds its capacity. -/
 theorem C25_event_stream (fs : List Filter) (cap : Nat) (sched : List Act) :
     (esRun fs cap sched).log.map (·.1) = (liveArrivals sched).filter (wanted fs) ∧
-    (esRun fs cap sched).sent ++ (esRun fs cap sched).buf = accepted (esRun fs cap sched).log ∧
+    (esRun fs cap sched).sent ++ (esRun fs cap sched).lost ++ (esRun fs cap sched).buf = accepted (esRun fs cap sched).log ∧
+    ((esRun fs cap sched).dead = false → (esRun fs cap sched).lost = []) ∧
     (esRun fs cap sched).buf.length ≤ cap := by
-  refine ⟨?_, ?_, ?_⟩
+  have hacc := es_acc fs cap sched {} (by simp [AccInv, accepted])
+  refine ⟨?_, hacc.1, hacc.2, ?_⟩
   · simpa [esRun] using es_log fs cap sched {}
-  · exact es_acc fs cap sched {} (by simp [accepted])
   · exact es_cap fs cap sched {} (by simp)
+
+/-- **In order, only matching, nothing invented**: at every moment and whatever fails, the records
+sent are a prefix of the accepted arrivals (the matching events dispatched to the open stream that
+found room), in arrival order. -/
+theorem C25_event_sent_prefix (fs : List Filter) (cap : Nat) (sched : List Act) :
+    (esRun fs cap sched).sent <+: accepted (esRun fs cap sched).log := by
+  obtain ⟨_, h2, _, _⟩ := C25_event_stream fs cap sched
+  exact ⟨(esRun fs cap sched).lost ++ (esRun fs cap sched).buf, by rw [← h2, List.append_assoc]⟩
 
 /-- An event dispatched to an open stream is dropped only if it is unwanted or the buffer is full
 at that moment. -/
@@ -102,22 +112,22 @@ theorem C25_event_drop_iff_full (fs : List Filter) (cap : Nat) (pre : List Act) 
   simp only [esRun] at hopen
   constructor <;> intro h <;> simp only [esRun] at h <;> simp [esRun, List.foldl_append, esStep, hw, h, hopen]
 
-/-- Nothing enters a stopped stream: after a `Stop()` no later dispatch changes the log, and
-sent ++ buffered stays the same list (the goroutine only moves buffered events to the client). -/
+/-- Nothing enters a stopped stream: after a `Stop()` no later dispatch changes the log (and by
+`C25_event_stream` sent ++ lost ++ buffered stays the accepted list: the goroutine only moves
+buffered events to the client). -/
 theorem C25_event_nothing_after_stop (fs : List Filter) (cap : Nat) (pre post : List Act) :
-    (esRun fs cap (pre ++ [.stop] ++ post)).log = (esRun fs cap (pre ++ [.stop])).log ∧
-    (esRun fs cap (pre ++ [.stop] ++ post)).sent ++ (esRun fs cap (pre ++ [.stop] ++ post)).buf =
-      (esRun fs cap (pre ++ [.stop])).sent ++ (esRun fs cap (pre ++ [.stop])).buf := by
+    (esRun fs cap (pre ++ [.stop] ++ post)).log = (esRun fs cap (pre ++ [.stop])).log := by
   have hs : (esRun fs cap (pre ++ [.stop])).stopped = true := by simp [esRun, List.foldl_append, esStep]
-  obtain ⟨h1, h2, _⟩ := es_after_stop fs cap post _ hs
+  obtain ⟨h1, _⟩ := es_after_stop fs cap post _ hs
   simp only [esRun, List.foldl_append] at *
-  exact ⟨h1, h2⟩
+  exact h1
 
 /-- Only wanted events are ever sent. -/
 theorem C25_event_only_matching (fs : List Filter) (cap : Nat) (sched : List Act) (e : Ev)
     (h : e ∈ (esRun fs cap sched).sent) : wanted fs e = true := by
-  obtain ⟨h1, h2, _⟩ := C25_event_stream fs cap sched
-  have : e ∈ accepted (esRun fs cap sched).log := by rw [← h2]; simp [h]
+  obtain ⟨h1, _, _, _⟩ := C25_event_stream fs cap sched
+  have hp := C25_event_sent_prefix fs cap sched
+  have : e ∈ accepted (esRun fs cap sched).log := hp.subset h
   have : e ∈ (esRun fs cap sched).log.map (·.1) := by
     simp only [accepted, List.mem_map, List.mem_filter] at this ⊢
     obtain ⟨p, ⟨hp, _⟩, rfl⟩ := this
@@ -125,20 +135,30 @@ theorem C25_event_only_matching (fs : List Filter) (cap : Nat) (sched : List Act
   rw [h1] at this
   exact (List.mem_filter.mp this).2
 
-/-- Once the stream goroutine has caught up, `sent` is exactly: the matching events minus
-those dropped on a full buffer, in order. -/
+/-- **Every matching event unless the buffer overflowed**: once the stream goroutine — alive, no
+failed send — has caught up, `sent` is exactly the matching events dispatched to the open stream
+minus those dropped on a full buffer, in order. -/
 theorem C25_event_stream_drained (fs : List Filter) (cap : Nat) (sched : List Act) (n : Nat)
-    (hn : (esRun fs cap sched).buf.length ≤ n) :
+    (hn : (esRun fs cap sched).buf.length ≤ n) (halive : (esRun fs cap sched).dead = false) :
     (esRun fs cap (sched ++ List.replicate n .consume)).sent = accepted (esRun fs cap sched).log ∧
     (esRun fs cap (sched ++ List.replicate n .consume)).buf = [] := by
-  obtain ⟨_, h2, _⟩ := C25_event_stream fs cap sched
-  obtain ⟨d1, d2, _⟩ := es_drain fs cap n (esRun fs cap sched) hn
+  obtain ⟨_, h2, h3, _⟩ := C25_event_stream fs cap sched
+  obtain ⟨d1, d2, _⟩ := es_drain fs cap n (esRun fs cap sched) hn halive
+  have hl := h3 halive
   simp only [esRun, List.foldl_append] at *
-  exact ⟨by rw [d2, h2], d1⟩
+  refine ⟨?_, d1⟩
+  rw [d2, ← h2, hl]; simp
 
 /-- non-vacuity: capacity 1, the second matching event is dropped, the non-matching one ignored -/
 example : (esRun [⟨"user", "a"⟩] 1 [.arrive ⟨"user", "a", 1⟩, .arrive ⟨"user", "b", 2⟩, .arrive ⟨"user", "a", 3⟩,
       .consume, .arrive ⟨"user", "a", 4⟩, .consume]).sent = [⟨"user", "a", 1⟩, ⟨"user", "a", 4⟩] := by decide
+
+/-- non-vacuity with a failing send and a stop: event 1 sent, event 3's send fails (lost), event 4
+stays buffered, event 5 arrives after Stop and is ignored -/
+example : let s := esRun [⟨"user", "a"⟩] 4 [.arrive ⟨"user", "a", 1⟩, .consume, .arrive ⟨"user", "a", 3⟩,
+      .arrive ⟨"user", "a", 4⟩, .consumeFail, .consume, .stop, .arrive ⟨"user", "a", 5⟩]
+    s.sent = [⟨"user", "a", 1⟩] ∧ s.lost = [⟨"user", "a", 3⟩] ∧ s.buf = [⟨"user", "a", 4⟩] ∧ s.dead = true ∧
+    s.log.length = 3 := by decide
 
 example : wanted [⟨"user", "a"⟩] ⟨"user", "a", 3⟩ = true ∧
     ¬ (esRun [⟨"user", "a"⟩] 1 [.arrive ⟨"user", "a", 1⟩]).buf.length < 1 := by decide
